@@ -253,8 +253,10 @@ let predict (c : string) (obs : string) : string * string * bool =
         then "BAD:" ^ who ^ "-provider-panic-or-hang"
         else if get "h=" <> "=" then "BAD:" ^ who ^ "-provider-ammo-of-hcl-differs-from-yaml"
         else if get "hl=" <> "=" then "BAD:" ^ who ^ "-provider-ammo-of-hcl-with-locals-differs-from-yaml"
+        else if get "yl=" <> "=" then "BAD:" ^ who ^ "-provider-ammo-of-yaml-in-another-layout-differs-from-yaml"
+        else if get "hh=" <> "=" then "BAD:" ^ who ^ "-provider-ammo-of-hcl-in-another-layout-differs-from-yaml"
         else "ok" in
-      (Printf.sprintf "y=%s h== hl==" y, v, y <> "err")
+      (Printf.sprintf "y=%s h== hl== yl== hh==" y, v, y <> "err")
   | ["lay"; _seed; tok] ->
       (* the layout of the file as a generated dimension (harness/cmd/hC16/layout.go): key / block order, scalar styles
          incl. literal block scalars and heredocs, what the file ends with.  Every block scalar / heredoc the printers
